@@ -160,7 +160,7 @@ def parse_unit(path, _included=None):
             elif d == "hint":
                 if cur is None:
                     raise UnitError(f"{path}:{ln_no}: //@ hint outside extract fn")
-                m = re.match(r'hint\s+(before|after|start|end|loopstart|loopend)\s*(?:"(.*)")?\s*(?:#?(\d+))?', body)
+                m = re.match(r'hint\s+(loopbefore|loopstart|loopend|before|after|start|end)\s*(?:"(.*)")?\s*(?:#?(\d+))?', body)
                 if not m:
                     raise UnitError(f"{path}:{ln_no}: bad hint directive")
                 h = {"where": m.group(1), "anchor": m.group(2), "nth": int(m.group(3) or 0), "text": []}
@@ -217,14 +217,23 @@ def find_balanced(s, start, open_ch="(", close_ch=")"):
 def splice_body(body, ex, item):
     # loop-relative hints first (positions are found through the still-present loop markers)
     for h in ex["hints"]:
-        if h["where"] not in ("loopstart", "loopend"):
+        if h["where"] not in ("loopstart", "loopend", "loopbefore"):
             continue
         txt = "\n".join(h["text"])
         mk = "__hq_loop!(%d);" % h["nth"]
         pos = body.find(mk)
         if pos < 0:
             raise UnitError(f"LOST-ANCHOR {ex['path']}: hint names loop {h['nth']} which does not exist")
-        if h["where"] == "loopstart":
+        if h["where"] == "loopbefore":
+            lines_before = body[:pos].split("\n")
+            k = len(lines_before) - 1
+            while k >= 0 and not re.match(r"^\s*(?:'\w+:\s*)?(for|while|loop)\b", lines_before[k]):
+                k -= 1
+            if k < 0:
+                raise UnitError(f"internal: loop header of loop {h['nth']} not found in {ex['path']}")
+            at = len("\n".join(lines_before[:k])) + (1 if k > 0 else 0)
+            body = body[:at] + txt + "\n" + body[at:]
+        elif h["where"] == "loopstart":
             at = pos + len(mk)
             body = body[:at] + "\n" + txt + "\n" + body[at:]
         else:
@@ -266,7 +275,7 @@ def splice_body(body, ex, item):
     # hints
     for h in ex["hints"]:
         txt = "\n".join(h["text"])
-        if h["where"] in ("loopstart", "loopend"):
+        if h["where"] in ("loopstart", "loopend", "loopbefore"):
             continue
         if h["where"] == "start":
             i = body.index("{")
@@ -318,7 +327,7 @@ def build_request(ex, meta):
         r["trait"] = o["trait"]
     if "derive" in o:
         r["derive_keep"] = [x for x in o["derive"].split(",") if x and x != "Structural"]
-    for k in ("index_recv", "drop_calls", "opaque_macros", "mut_params", "str_params", "into_vec"):
+    for k in ("index_recv", "drop_calls", "opaque_macros", "mut_params", "str_params", "into_vec", "iter_on"):
         if k in o:
             r[k] = o[k].split(",")
     if "field_types" in o:
